@@ -771,8 +771,8 @@ def report_sweep_failure(res, mn, prm, status, detail, origin):
 def run(res, tier, seed, proofs_ok):
     rng = random.Random(seed)
     quick = tier == 'quick'
-    per_tag = 80 if quick else 600
-    n_bad = 700 if quick else 5000
+    per_tag = 64 if quick else 600
+    n_bad = 560 if quick else 5000
     res.rule = ('one surface card per case: every mnemonic of the mcnp2cad '
                 'table in every form (4- and 9-entry P, K with/without sheet '
                 'selector, 5/6-entry tori, 2/4-entry X/Y/Z incl. plane, '
